@@ -156,7 +156,7 @@ fn numeric(x: &str) -> Option<f64> {
 pub fn bounds(tier: Tier) -> Value {
     match tier {
         Tier::Quick => json!({"text_len": 3, "needle_len": 2, "alphabet": ["a", "b", " ", "é", "😀"], "range_grid": [-3, 3]}),
-        Tier::Thorough => json!({"text_len": 5, "needle_len": 2, "alphabet": ["a", "b", " ", "é", "😀"], "range_grid": [-4, 4]}),
+        Tier::Thorough => json!({"text_len": 7, "needle_len": 2, "alphabet": ["a", "b", " ", "é", "😀"], "range_grid": [-6, 6]}),
     }
 }
 
@@ -207,7 +207,7 @@ impl<'a> Run<'a> {
 
 pub fn worker(w: &mut Worker) {
     let tier = w.tier;
-    let tl = tier.pick(3usize, 5usize);
+    let tl = tier.pick(3usize, 7usize);
     let texts: Vec<String> = Strings::new(&SIG[..], 0, tl).map(|v| v.concat()).collect();
     let needles: Vec<String> = Strings::new(&SIG[..], 0, 2).map(|v| v.concat()).collect();
     let mut r = Run { w, rig: Rig::new() };
@@ -390,7 +390,7 @@ pub fn worker(w: &mut Worker) {
     }
 
     // range: half-open integer interval
-    let g = tier.pick(3i64, 4i64);
+    let g = tier.pick(3i64, 6i64);
     for a in -g..=g {
         for z in -g..=g {
             let acc = if a > z {
